@@ -1,14 +1,17 @@
 (* C07 - anything parsed can be re-dumped, transcoded and re-parsed unchanged.
-   PARTIAL: proved for text (every code-point list as Str and as Uri): each format's writer followed by
-   its reader is the identity, hence every chain of transcodings ZINC -> JSON -> ZINC ... returns the
-   value it started from and re-dumping reproduces the same text (idempotent normalisation).
-   Purity needs no theorem in a functional model: zdump / jdump are functions of the value, so two dumps
-   of one value are identical and nothing is modified - that part is checked on the implementation
-   (deep snapshot before / after, two dumps compared) by harness/props/c07.py, as are the other kinds. *)
+   Proved on the models: for text (every code-point list as Str and as Uri) each format's writer followed by its reader
+   is the identity, hence every chain of transcodings ZINC -> JSON -> ZINC ... returns the value it started from and
+   re-dumping reproduces the same text (idempotent normalisation); for WHOLE GRIDS - metadata-free 3.0 grids, 3.0 grids
+   with grid and column metadata over every kind but date-times (lists, dicts and nested grids included), and 2.0 grids
+   with metadata - both formats read back the same grid that was written (C07_grid_both_formats, _general, _2_0).
+   PARTIAL: date-times (the known finding lives there: an offset no zone maps to) and float payloads (the JSON six-decimal
+   rule) are decided by the tie and the search on the implementation.  Purity needs no theorem in a functional model:
+   zdump / jdump are functions of the value, so two dumps of one value are identical and nothing is modified - that
+   part is checked on the implementation (deep snapshot before / after, two dumps compared) by harness/props/c07.py. *)
 From Coq Require Import String.
 From Coq Require Import List NArith Bool Lia.
 From HS Require Import Base.Prelude Model.Value Model.Escape Model.Version Model.Json Model.ZincDump Model.ZincParse.
-From HS Require Import Proofs.EscapeP Proofs.JsonP Proofs.ZincParseP Proofs.ZincDumpP Proofs.ZincNumP Proofs.ZincListP Proofs.ZincGridP Proofs.ZincDictP Proofs.ZincMetaP Proofs.ZincNestP Proofs.JsonGridP Proofs.JsonNestP.
+From HS Require Import Proofs.EscapeP Proofs.JsonP Proofs.ZincParseP Proofs.ZincDumpP Proofs.ZincNumP Proofs.ZincListP Proofs.ZincGridP Proofs.ZincDictP Proofs.ZincMetaP Proofs.ZincNestP Proofs.JsonGridP Proofs.JsonNestP Proofs.JsonReadP Proofs.JsonVerP Proofs.ZincV2P Proofs.ZincMeta2P.
 Import ListNotations.
 Open Scope N_scope.
 
@@ -135,6 +138,45 @@ Proof.
       apply IH. lia.
 Qed.
 
+(* VERSION 2.0, WITH METADATA: a 2.0 grid whose metadata values and cells are 2.0 values for the ZINC models (mval2 /
+   cell2) and leaves for the JSON models (leaf2: strings, URIs, Bins, markers, nulls, booleans, Remove) comes back as the
+   same grid, declared version included, from both formats *)
+Theorem C07_grid_both_formats_2_0 : forall mps cols rows rts,
+  Forall mval2 mps -> NoDup (mkeys mps) -> ~ In VERK (mkeys mps) ->
+  cols <> [] -> Forall mcol2 cols -> NoDup (map fst cols) ->
+  Forall2 (grid2_cells_ok (map fst cols)) rows rts ->
+  Forall (fun p => leaf2 (snd (pkv p))) mps ->
+  Forall (fun c => ~ In NAME (mkeys (snd c)) /\ Forall (fun p => leaf2 (snd (pkv p))) (snd c)) cols ->
+  Forall (Forall leaf2) rows ->
+  zparse_grid (meta_text2 mps cols rts) = Ok (meta_grid2 mps cols rows) /\
+  (forall f g j, jdump_grid (S (S f)) V20 (map pkv mps) (map (fun c => (fst c, map pkv (snd c))) cols)
+                            (map (fun cells => combine (map fst cols) cells) rows) = Ok j ->
+                 exists m, j = JObj m /\ jparse_grid (S (S g)) m = Ok (meta_grid2 mps cols rows)).
+Proof.
+  intros mps cols rows rts Hm Hmn Hmv Hne Hc Hcn Hrows Jm Jc Jr.
+  destruct (grid2_meta_roundtrip mps cols rows rts Hm Hmn Hmv Hne Hc Hcn Hrows) as [_ T]. split; [exact T|].
+  intros f g j Hj. unfold meta_grid2.
+  set (cols' := map (fun c : str * list (str * hval * str) => (fst c, map pkv (snd c))) cols) in *.
+  assert (NK : map fst cols' = map fst cols) by (unfold cols'; rewrite map_map; reflexivity).
+  apply (json_grid_roundtrip_2_0 f g V20 (map pkv mps) cols' _ j); try exact Hj.
+  - destruct ver20_facts as [pv H]. exists pv. exact H.
+  - unfold cols'. destruct cols; [contradiction|discriminate].
+  - exact Hmn.
+  - exact Hmv.
+  - clear -Jm. induction Jm as [|p l Hp _ IH]; cbn [map]; constructor; [exact Hp|exact IH].
+  - rewrite NK. exact Hcn.
+  - unfold cols'. clear -Hc Jc. induction Jc as [|c l [Hn Hv] _ IH]; cbn [map]; [constructor|].
+    inversion Hc as [|? ? [_ [_ Hnd]] Hc']; subst. constructor; [|exact (IH Hc')].
+    split; [exact Hnd|]. split; [exact Hn|]. cbn [snd]. clear -Hv. induction Hv as [|p l Hp _ IH]; cbn [map]; constructor; [exact Hp|exact IH].
+  - clear -Hrows Jr Hcn NK. revert rts Hrows. induction Jr as [|cells rows Hcv _ IH]; intros rts Hrows; cbn [map]; [constructor|].
+    inversion Hrows as [|? ts ? rts' [Hl _] Hrest]; subst. constructor; [|exact (IH rts' Hrest)].
+    split.
+    + rewrite <- NK. apply canon_combine; [rewrite NK; exact Hcn|rewrite <- NK in Hl; rewrite map_length in Hl; exact Hl].
+    + clear -Hcv Hl. revert Hl. generalize (map fst cols). intros names Hl. revert names Hl.
+      induction Hcv as [|x cells Hx _ IH]; intros [|nm names] Hl; cbn in Hl; try discriminate; cbn [combine]; constructor; [exact Hx|].
+      apply IH. lia.
+Qed.
+
 Example C07_grid_nonvacuous :
   let names := [s_ "a"; s_ "b"] in
   let rows := [[VStr (s_ "x"); VList [VMarker; VBool true]]; [VNull; VUri (s_ "u")]] in
@@ -161,6 +203,7 @@ Qed.
 
 Print Assumptions C07_grid_both_formats.
 Print Assumptions C07_grid_both_formats_general.
+Print Assumptions C07_grid_both_formats_2_0.
 Print Assumptions C07_json_leg_nested.
 Print Assumptions C07_json_normalisation_idempotent_nested.
 Print Assumptions C07_zinc_leg.
